@@ -61,6 +61,132 @@ def compare_arms(ck, rule, name_a, sig_a, name_b, sig_b, ignore=()):
                        % (var, name_a, ", ".join(sorted(only_a)), name_b, ", ".join(sorted(only_b))))
 
 
+def entry_path_rule(fx, ck, name="S10.entry-installs-path", scope=lambda g: g.path.startswith("interpreter::Interpreter::"), owner="interpreter::Interpreter",
+                    path_ty="ModulePath", parser=("::Parser::<'a>::new", "Parser::new")):
+    """The entry points that take the source and its module path (`eval`, `prepare`) are siblings: a field of the interpreter that one of
+    them sets from that parameter on every path to a successful return must be set on every such path by the others too.  `eval` installs
+    `current_module_path` unconditionally; a `prepare` that does so only for the first run of an interpreter resolves the imports of the
+    second program against the directory of the first one."""
+    from c09 import ancestors
+    ck.rule(name, "a path field that one entry point (source + module path) installs from its parameter on every successful path is installed so by every entry point", floor=2)
+    entries = []
+    for p, f in sorted(fx.fns.items()):
+        if f.closure or f.derived or not scope(f):
+            continue
+        params = [i for i in range(1, f.argc + 1) if path_ty in fx.tys(f.locals[i]) and fx.tys(f.locals[i]).startswith("std::option::Option<")]
+        if not params or not any((t[1].get("d") or "").endswith(parser) for _, t in f.calls()):
+            continue
+        entries.append((f, params))
+    table = {}
+    path_fields = {fld["name"] for fld in fx.adts[owner]["variants"][0]["fields"] if path_ty in fx.tys(fld["ty"])} if owner in fx.adts else set()
+    for f, params in entries:
+        derived = set()
+        # locals computed from the parameter (clones, as_ref, Some(..))
+        for l in range(len(f.locals)):
+            if any(q in ancestors(f, l) for q in params):
+                derived.add(l)
+        stores = {}
+        for bi, bl in enumerate(f.blocks):
+            if bl["c"]:
+                continue
+            for s_ in bl["s"]:
+                if s_[0] != "a":
+                    continue
+                fl = [x for x in F.place_fields(s_[1]) if x[0] == owner and x[2] in path_fields]
+                if not fl:
+                    continue
+                srcs = [pl[0] for pl in F.rvalue_places(s_[2])]
+                if any(x in derived for x in srcs):
+                    stores.setdefault(fl[-1][2], set()).add(bi)
+        rets = {bi for bi, bl in enumerate(f.blocks) if bl["t"][0] == "ret"}
+        errs = {bi for bi, t in f.calls() if (t[1].get("d") or "").endswith("::from_residual")}
+        for bi, bl in enumerate(f.blocks):
+            for s_ in bl["s"]:
+                if s_[0] == "a" and s_[1][0] == 0 and s_[2][0] == "agg" and isinstance(s_[2][1], dict) and s_[2][1].get("v") == "Err":
+                    errs.add(bi)
+        for field, blocks in stores.items():
+            seen, work, leak = set(), [0], False
+            while work:
+                x = work.pop()
+                if x in seen or x in blocks or x in errs:
+                    continue
+                seen.add(x)
+                if x in rets:
+                    leak = True
+                    break
+                work.extend(f.succ(x))
+            table.setdefault(field, {})[f.path] = (not leak, min(blocks))
+    for field, per in sorted(table.items()):
+        always = [p for p, (a, _) in per.items() if a]
+        for f, params in entries:
+            if not always:
+                ck.instance(name, "%s.%s: set conditionally by every entry point that sets it" % (owner.split("::")[-1], field), None, nontrivial=False)
+                break
+            got = per.get(f.path)
+            ok = got is not None and got[0]
+            ck.instance(name, "%s installs %s.%s" % (f.path, owner.split("::")[-1], field), F.short_span(f.span), ok=ok)
+            if not ok:
+                ck.finding(name, "%s/%s/%s" % (name, f.path, field), F.short_span(f.span),
+                           "`%s` reaches a successful return without setting `%s` from its module-path parameter, `%s` always sets it: the second program run through "
+                           "`%s` on one interpreter resolves its imports against (and files its exports under) the path of an earlier run"
+                           % (f.path, field, always[0], f.path.split("::")[-1]))
+    return entries, table
+
+
+def handover_rule(fx, ck, name="S11.scope-installers-hand-over", owner="interpreter::Interpreter"):
+    """A run that suspends is finished by step(): the finaliser takes the record of the run (saved environment, module scope, module path)
+    out of the interpreter, restores the environment and files the exports.  Every function that installs a module scope for a program
+    (`create_module_environment` + `self.env = ..`) can end in a suspension, so each must write every field of that record on some path;
+    one that never does (eval before the repair) continues without its import bindings and loses its exports."""
+    import exits as E
+    ck.rule(name, "every function that installs the module scope of a program writes all the fields the step() finaliser takes", floor=2)
+    installers = []
+    for p, f in sorted(fx.fns.items()):
+        if f.closure or f.derived or not p.startswith(owner + "::"):
+            continue
+        if not any((t[1].get("d") or "").endswith("::create_module_environment") for _, t in f.calls()):
+            continue
+        writes = set()
+        for bl in f.blocks:
+            if bl["c"]:
+                continue
+            for s_ in bl["s"]:
+                if s_[0] == "a":
+                    for a, v, n in F.place_fields(s_[1]):
+                        if a == owner:
+                            writes.add(n)
+        # ... of a program: the function answers with a StepResult (dependency modules run to completion and restore the scope themselves)
+        if "env" in writes and f.sig and "StepResult" in fx.tys(f.sig[-1]):
+            installers.append((f, writes))
+    inst = {f.path for f, _ in installers}
+    record = set()
+    fin = []
+    for p, f in sorted(fx.fns.items()):
+        if f.closure or f.derived or not p.startswith(owner + "::") or p in inst:
+            continue
+        if not any((t[1].get("d") or "").endswith("::finalize_module_exports") for _, t in f.calls()):
+            continue
+        took = set()
+        for bi, t in f.calls():
+            if (t[1].get("d") or "").endswith(("Option::<T>::take", "mem::take")) and t[2] and t[2][0][0] in ("c", "m"):
+                fl = E.field_of_ref(f, t[2][0][1][0])
+                if fl and fl[0] == owner:
+                    took.add(fl[2])
+        if took:
+            fin.append(f.path)
+            record |= took
+    ck.anchor(bool(fin) and len(record) >= 2, "step() finaliser(s) %s take the run record %s" % ([x.split("::")[-1] for x in fin], sorted(record)))
+    for f, writes in installers:
+        missing = sorted(record - writes)
+        ck.instance(name, "%s installs a module scope and writes %s" % (f.path, sorted(record & writes)), F.short_span(f.span), ok=not missing)
+        if missing:
+            ck.finding(name, "%s/%s" % (name, f.path), F.short_span(f.span),
+                       "`%s` installs the module scope of a program and never writes %s, which `%s` takes to finish a run that suspended: after "
+                       "`export const a = await order(..)` the continuation runs without the module's import bindings and the exports are never filed"
+                       % (f.path, ", ".join(missing), fin[0] if fin else "?"))
+    return installers
+
+
 def delegates_to(fx, a, b):
     """a has no VmResult match of its own and hands the result to b (one implementation left after a merge)"""
     return any(t[1].get("d") == b.path for g in fx.body_group(a) for _, t in g.calls())
@@ -332,4 +458,9 @@ def run(tier):
                        "`%s` can run in the middle of another module's body (it is reachable from the opcode interpreter through resolve_module) and "
                        "drains `Interpreter.exports` afterwards without having set the importer's table aside first: the exports the importer recorded "
                        "before `export { x } from \"lib\"` end up on the library's namespace object" % f.path)
+    entries10, table10 = entry_path_rule(fx, ck)
+    ck.anchor(len(entries10) >= 2, "entry points taking source + module path (found %s)" % [f.path.split("::")[-1] for f, _ in entries10])
+    ck.anchor("current_module_path" in table10, "Interpreter.current_module_path is set from the module-path parameter by an entry point")
+    inst11 = handover_rule(fx, ck)
+    ck.anchor(len(inst11) >= 2, "functions installing a module scope (found %s)" % [f.path.split("::")[-1] for f, _ in inst11])
     return ck.finish()
